@@ -65,6 +65,8 @@ def evaluate(prop: str, root: str) -> Dict[str, Any]:
     mod = importlib.import_module("verif.rules.%s" % prop.lower())
     try:
         mod.check(ck)
+        from ..rules import shared
+        shared.run(ck)
     except AnalysisError as e:
         ck.unknown("engine", "analysis", str(e))
     except Exception as e:   # noqa
@@ -192,6 +194,64 @@ def run_refactors(repo_root: str, prop: str, jobs: int = 16) -> List[Dict[str, A
     return out
 
 
+SEEDED = os.path.join(os.path.dirname(REFACTORS), "seeded")
+
+
+def tree_digest(repo_root: str) -> str:
+    """digest of the analysed sources (skepticoin/**/*.py)"""
+    import hashlib
+    h = hashlib.sha256()
+    base = os.path.join(repo_root, "skepticoin")
+    for dp, dn, fn in sorted(os.walk(base)):
+        dn.sort()
+        for f in sorted(fn):
+            if f.endswith(".py"):
+                p_ = os.path.join(dp, f)
+                h.update(os.path.relpath(p_, repo_root).encode() + b"\0" + hashlib.sha256(open(p_, "rb").read()).digest())
+    return h.hexdigest()
+
+
+def on_reference_tree(repo_root: str) -> bool:
+    """the corpora were confirmed against the recorded tree: only there is a self-test miss a defect of the checker. On any other tree
+    (somebody's change under review) a variant may interact with that change; the outcome is recorded but decides nothing."""
+    ref = os.path.join(os.path.dirname(REFACTORS), "reference", "tree.sha256")
+    try:
+        return open(ref).read().split()[0] == tree_digest(repo_root)
+    except OSError:
+        return True
+
+
+def run_seeded(repo_root: str, prop: str, jobs: int = 16) -> List[Dict[str, Any]]:
+    """independently written breaking changes kept under seeded/<id>/ (confirmed to break the property at run time while the suite
+    passes): the property's own check must report each of them"""
+    import glob
+    import json
+    patches = []
+    for mp in sorted(glob.glob(os.path.join(SEEDED, "*", "meta.json"))):
+        try:
+            meta = json.load(open(mp))
+        except Exception:
+            continue
+        if meta.get("property") == prop and os.path.isfile(os.path.join(os.path.dirname(mp), "patch.diff")):
+            patches.append(os.path.join(os.path.dirname(mp), "patch.diff"))
+    if not patches:
+        return []
+    base = evaluate(prop, repo_root)
+    out = []
+    with concurrent.futures.ProcessPoolExecutor(max_workers=min(jobs, len(patches))) as ex:
+        for res in ex.map(_run_refactor, [(repo_root, prop, p) for p in patches]):
+            r: Dict[str, Any] = {"id": res["id"], "kind": "seeded-change", "prop": prop}
+            if "skipped" in res:
+                r["status"] = "skipped"
+                r["why"] = res["skipped"]
+            else:
+                new = [x for x in res["violated"] if x not in base["violated"]]
+                r["status"] = "detected" if new else "MISSED"
+                r["by"] = ["%s: %s" % tuple(h) for h in new][:3]
+            out.append(r)
+    return out
+
+
 def run_for_property(ck: Check, repo_root: str) -> None:
     """thorough tier: the corpus of this property. A missed seeded defect or a twin that fires is analysis-broken (exit 2)."""
     vs = corpus(ck.prop)
@@ -206,17 +266,28 @@ def run_for_property(ck: Check, repo_root: str) -> None:
         "skipped_anchor_not_found": [r["id"] for r in skipped],
         "results": res,
     }
+    strict = on_reference_tree(repo_root)
+    ck.selftest["on_reference_tree"] = strict
+    report = ck.unknown if strict else (lambda rule, construct, detail, where="": ck.note("self-test (informative, tree differs from the recorded one): %s" % detail))
     rf = run_refactors(repo_root, ck.prop)
     ck.selftest["refactorings"] = len(rf)
     ck.selftest["refactorings_silent"] = len([r for r in rf if r["status"] == "silent"])
     ck.selftest["refactorings_skipped"] = [r["id"] for r in rf if r["status"] == "skipped"]
     for r in rf:
         if r["status"] == "FALSE-ALARM":
-            ck.unknown("selftest", "refactoring %s" % r["id"], "self-test failed: behaviour-preserving refactoring %s raised %s" % (r["id"], r.get("by")))
+            report("selftest", "refactoring %s" % r["id"], "self-test failed: behaviour-preserving refactoring %s raised %s" % (r["id"], r.get("by")))
+    sd = run_seeded(repo_root, ck.prop)
+    ck.selftest["independent_changes"] = len(sd)
+    ck.selftest["independent_changes_detected"] = len([r for r in sd if r["status"] == "detected"])
+    ck.selftest["independent_changes_skipped"] = [r["id"] for r in sd if r["status"] == "skipped"]
+    ck.selftest["independent_changes_results"] = sd
+    for r in sd:
+        if r["status"] == "MISSED":
+            report("selftest", "independent change %s" % r["id"], "self-test failed: the kept breaking change %s is no longer reported" % r["id"])
     for r in missed:
-        ck.unknown("selftest", "seeded defect %s" % r["id"], "self-test failed: seeded defect %s was not reported (expected rule %s)" % (r["id"], r["expect"]))
+        report("selftest", "seeded defect %s" % r["id"], "self-test failed: seeded defect %s was not reported (expected rule %s)" % (r["id"], r["expect"]))
     for r in false:
-        ck.unknown("selftest", "twin %s" % r["id"], "self-test failed: behaviour-preserving twin %s raised %s" % (r["id"], r.get("by")))
+        report("selftest", "twin %s" % r["id"], "self-test failed: behaviour-preserving twin %s raised %s" % (r["id"], r.get("by")))
 
 
 def main() -> int:
